@@ -742,10 +742,10 @@ Lemma refuted_conversion :
   t_spec w_tab w_conversion = Ok [39; 122; 122; 39]%N /\ t_render w_tab w_conversion = Err ETemplater.
 Proof. vm_compute. split; reflexivity. Qed.
 
-(* "{a.b: >4}" : a spec with a space is not matched at all; str.format then evaluates "A".b (AttributeError, uncaught) *)
+(* "{a.b: >4}" : a spec with a space is not matched at all; str.format then evaluates "A".b (AttributeError, reported as a templating error since the repair of the error funnel) *)
 Definition w_spec_space : text := [123; 97; 46; 98; 58; 32; 62; 52; 125]%N.
 Lemma refuted_spec_space :
-  t_spec w_tab w_spec_space = Ok [32; 32; 122; 122]%N /\ t_render w_tab w_spec_space = Err ERuntime
+  t_spec w_tab w_spec_space = Ok [32; 32; 122; 122]%N /\ t_render w_tab w_spec_space = Err ETemplater
   /\ dot_hack w_spec_space = w_spec_space.
 Proof. vm_compute. repeat split; reflexivity. Qed.
 
